@@ -37,11 +37,16 @@ theorem C07_ping_pong (f : Flags) (enc : Bool) (s : Stanza) (h : s.tag = .iq) (h
 
 /-- A message whose content the library cannot present (payload other than text / extended text /
     supported media / pure key distribution) is answered with exactly one receipt instead of being
-    dropped; an unsupported media type likewise when the media module is present. -/
+    dropped; an unsupported media type likewise when the media module is present and the payload is not
+    a sender key distribution on its own.  A key-distribution-only payload in a message of type media
+    is not content at all: it never surfaces and is not answered with a receipt (nothing raises),
+    whatever the media kind attribute says. -/
 theorem C07_unsupported_payload_receipt (f : Flags) (enc : Bool) (s : Stanza) (h : MessageWF s) :
     (s.media = .absent → s.payload = .other → recvStack f enc s = ({ downs := [.messageReceipt] }, false)) ∧
-    (s.media = .other → recvStack f enc s = ({ downs := if f.media then [.messageReadReceipt] else [] }, false)) :=
-  ⟨(recv_message f enc s h).2.2.2.1, (recv_message f enc s h).2.2.2.2.2⟩
+    (s.media = .other → s.payload ≠ .keyDistributionOnly →
+      recvStack f enc s = ({ downs := if f.media then [.messageReadReceipt] else [] }, false)) ∧
+    (s.mtype = .media → s.hasProto = true → s.payload = .keyDistributionOnly → recvStack f enc s = ({}, false)) :=
+  ⟨(recv_message f enc s h).2.2.2.1, (recv_message f enc s h).2.2.2.2.2.1, (recv_message f enc s h).2.2.2.2.2.2⟩
 
 /- Non-vacuity -/
 example : ({ tag := .notification, ntype := .other } : Stanza).tag = .notification := rfl
